@@ -6,6 +6,14 @@ read from the working tree by AST extraction (no import) -> lean/AgVerif/Gen/Ars
   ARSCHeader.SIZE         (an expression of integer literals)
   ARSCResTableEntry       FLAG_COMPLEX, FLAG_PUBLIC, FLAG_WEAK, FLAG_COMPACT
   ARSCParser.__init__     the local constants FLAG_SPARSE, FLAG_OFFSET16, NO_ENTRY_16, NO_ENTRY_32
+  ARSCParser.__init__     the entry-offset conversions of the three ResTable_type array layouts, as *expressions*
+                          (translated, not evaluated): the helper `offset_from16` (0xFFFF sentinel, x4), the FLAG_SPARSE
+                          branch (`idx, off = unpack('<HH')`, `offset = off * 4`, no sentinel), the FLAG_OFFSET16 branch
+                          (`offset = offset_from16(offset_16)`, skipped when `== NO_ENTRY_16`), the plain branch (raw
+                          32-bit offset, skipped when `== NO_ENTRY_32`), and the two `mResId & 0xFFFF0000 | index`
+                          assignments.  The model's entry-array decoders are built from these definitions and
+                          Props/C28.lean pins them (`sparse_offset_spec`, `offset16_spec`, ...): a changed expression
+                          breaks a theorem; a shape this translator no longer recognises raises (= broken obligation).
   types.py                TYPE_REFERENCE, TYPE_ATTRIBUTE, TYPE_STRING, TYPE_FLOAT, TYPE_DIMENSION, TYPE_FRACTION,
                           TYPE_INT_DEC, TYPE_INT_HEX, TYPE_INT_BOOLEAN, TYPE_FIRST_COLOR_INT, TYPE_LAST_COLOR_INT,
                           TYPE_FIRST_INT, TYPE_LAST_INT
@@ -36,6 +44,100 @@ def _assigns(body, env, out, prefix=""):
                 continue
             env[st.targets[0].id] = v
             out[prefix + st.targets[0].id] = v
+
+
+# ---------------------------------------------------------------- expressions of the entry-offset loop
+_CONST_NAMES = {"FLAG_SPARSE": "flagSparse", "FLAG_OFFSET16": "flagOffset16", "NO_ENTRY_16": "noEntry16",
+                "NO_ENTRY_32": "noEntry32"}
+
+
+class Shape(ValueError):
+    """the anchored code no longer has the shape this translator understands"""
+
+
+def _lean(node, params):
+    """a Python integer expression over `params` (and the local constants) as a Lean `Nat` term"""
+    if isinstance(node, ast.Constant) and isinstance(node.value, int) and not isinstance(node.value, bool) and node.value >= 0:
+        return str(node.value)
+    if isinstance(node, ast.Name):
+        if node.id in params:
+            return params[node.id]
+        if node.id in _CONST_NAMES:
+            return _CONST_NAMES[node.id]
+        raise Shape("unexpected name in offset expression: " + node.id)
+    if isinstance(node, ast.Attribute) and ast.unparse(node) in params:
+        return params[ast.unparse(node)]
+    if isinstance(node, ast.BinOp):
+        ops = {ast.Mult: "*", ast.Add: "+", ast.LShift: "<<<", ast.BitOr: "|||", ast.BitAnd: "&&&"}
+        if type(node.op) not in ops:
+            raise Shape("unexpected operator in offset expression: " + ast.dump(node.op))
+        return "(%s %s %s)" % (_lean(node.left, params), ops[type(node.op)], _lean(node.right, params))
+    if isinstance(node, ast.IfExp):
+        return "(if %s then %s else %s)" % (_lean_test(node.test, params), _lean(node.body, params), _lean(node.orelse, params))
+    if isinstance(node, ast.Call) and isinstance(node.func, ast.Name) and node.func.id == "offset_from16" \
+            and len(node.args) == 1 and not node.keywords:
+        return "(offsetFrom16 %s)" % _lean(node.args[0], params)
+    raise Shape("unexpected offset expression: " + ast.unparse(node))
+
+
+def _lean_test(node, params):
+    if isinstance(node, ast.Compare) and len(node.ops) == 1 and isinstance(node.ops[0], (ast.Eq, ast.NotEq)):
+        op = "=" if isinstance(node.ops[0], ast.Eq) else "≠"
+        return "(%s %s %s)" % (_lean(node.left, params), op, _lean(node.comparators[0], params))
+    raise Shape("unexpected test in offset expression: " + ast.unparse(node))
+
+
+def _need(cond, what):
+    if not cond:
+        raise Shape("entry-offset loop of ARSCParser.__init__: " + what)
+
+
+def _assign_to(stmts, name):
+    hits = [s for s in stmts if isinstance(s, ast.Assign) and len(s.targets) == 1 and ast.unparse(s.targets[0]) == name]
+    _need(len(hits) == 1, "exactly one assignment to `%s` expected, found %d" % (name, len(hits)))
+    return hits[0].value
+
+
+def _skip_test(stmts, var):
+    """`if <var> == CONST: continue` -> the test"""
+    hits = [s for s in stmts if isinstance(s, ast.If) and len(s.body) == 1 and isinstance(s.body[0], ast.Continue)
+            and not s.orelse]
+    _need(len(hits) == 1, "exactly one `if ...: continue` expected after the read of `%s`" % var)
+    return hits[0].test
+
+
+def offset_exprs(init):
+    """the Lean definitions for the conversions in the `for i in range(0, a_res_type.entryCount)` loop"""
+    helpers = [n for n in ast.walk(init) if isinstance(n, ast.FunctionDef) and n.name == "offset_from16"]
+    _need(len(helpers) == 1, "helper offset_from16 not found")
+    h = helpers[0]
+    _need(len(h.args.args) == 1 and len(h.body) == 1 and isinstance(h.body[0], ast.Return), "offset_from16 is not a single return")
+    hp = h.args.args[0].arg
+    loops = [n for n in ast.walk(init) if isinstance(n, ast.For) and ast.unparse(n.target) == "i"
+             and ast.unparse(n.iter) == "range(0, a_res_type.entryCount)"]
+    _need(len(loops) == 1, "the loop over range(0, a_res_type.entryCount) not found")
+    body = loops[0].body
+    _need(len(body) == 2 and isinstance(body[0], ast.If) and ast.unparse(body[0].test) == "a_res_type.flags & FLAG_SPARSE",
+          "first statement is not `if a_res_type.flags & FLAG_SPARSE`")
+    _need(ast.unparse(body[1]) == "entries.append((offset, current_package.mResId))", "entries.append((offset, mResId)) expected")
+    sparse, dense = body[0].body, body[0].orelse
+    _need(ast.unparse(_assign_to(sparse, "entry")) == "self.buff.read(4)", "sparse: 4 bytes per entry expected")
+    _need(ast.unparse(_assign_to(sparse, "(idx, off)")) == "unpack('<HH', entry)", "sparse: idx, off = unpack('<HH', entry) expected")
+    _need(not any(isinstance(s, (ast.If, ast.Continue)) for s in sparse), "sparse: no skipped entries expected")
+    idmask = {"current_package.mResId": "mResId"}
+    out = [("offsetFrom16", [hp], "Nat", _lean(h.body[0].value, {hp: hp})),
+           ("sparseOffset", ["off"], "Nat", _lean(_assign_to(sparse, "offset"), {"off": "off"})),
+           ("sparseEntryId", ["mResId", "idx"], "Nat", _lean(_assign_to(sparse, "current_package.mResId"), dict(idmask, idx="idx")))]
+    _need(len(dense) == 2 and isinstance(dense[1], ast.If) and ast.unparse(dense[1].test) == "a_res_type.flags & FLAG_OFFSET16",
+          "dense: `if a_res_type.flags & FLAG_OFFSET16` expected")
+    out.append(("denseEntryId", ["mResId", "i"], "Nat", _lean(_assign_to(dense[:1], "current_package.mResId"), dict(idmask, i="i"))))
+    d16, d32 = dense[1].body, dense[1].orelse
+    _need(ast.unparse(_assign_to(d16, "offset_16")) == "unpack('<H', self.buff.read(2))[0]", "offset16: 16-bit read expected")
+    out.append(("dense16Offset", ["offset_16"], "Nat", _lean(_assign_to(d16, "offset"), {"offset_16": "offset_16"})))
+    out.append(("dense16Skip", ["offset"], "Bool", "decide " + _lean_test(_skip_test(d16, "offset_16"), {"offset": "offset"})))
+    _need(ast.unparse(_assign_to(d32, "offset")) == "unpack('<I', self.buff.read(4))[0]", "plain: raw 32-bit read expected")
+    out.append(("plainSkip", ["offset"], "Bool", "decide " + _lean_test(_skip_test(d32, "offset"), {"offset": "offset"})))
+    return out
 
 
 def generate(repo):
@@ -75,5 +177,8 @@ def generate(repo):
              "namespace AgVerif.Gen.ArscConsts", ""]
     for n, v in want:
         lines.append(f"def {n} : Nat := {v}")
+    lines += ["", "/-! the entry-offset conversions of ARSCParser.__init__ (translated expressions) -/"]
+    for name, params, ty, body in offset_exprs(init):
+        lines.append("def %s %s : %s := %s" % (name, " ".join("(%s : Nat)" % p for p in params), ty, body))
     lines += ["", "end AgVerif.Gen.ArscConsts", ""]
     return {"ArscConsts": "\n".join(lines)}
